@@ -26,7 +26,7 @@ pub struct Outcome {
 }
 
 pub fn wall_cap(tier: &str) -> Duration {
-    let s = std::env::var("VERIF_WALL_CAP_S").ok().and_then(|s| s.parse().ok()).unwrap_or(if tier == "quick" { 150 } else { 3000 });
+    let s = std::env::var("VERIF_WALL_CAP_S").ok().and_then(|s| s.parse().ok()).unwrap_or(if tier == "quick" { 600 } else { 3000 });
     Duration::from_secs(s)
 }
 
